@@ -61,7 +61,8 @@ fn gen_fledger(r: &mut Rng, last: NaiveDate) -> Vec<FTx> {
     let mut pos = Decimal::ZERO;
     for _ in 0..n {
         date = date + Duration::days(*r.pick(&[0i64, 0, 1, 1, 2, 5, 20, 31, 45, 365, 366, 730]));   // incl. the same month of another year
-        let pick_cur = |r: &mut Rng| -> &'static str { if r.chance(1, 40) { "XTS" } else { *r.pick(&CURS[..6]) } };
+        // now and then any code the currency type knows (most have no bundled rate: the run must fail naming it)
+        let pick_cur = |r: &mut Rng| -> &'static str { if r.chance(1, 40) { "XTS" } else if r.chance(1, 25) { r.pick(crate::dslgen::all_codes()).code() } else { *r.pick(&CURS[..6]) } };
         let k = match r.below(10) { 0..=3 => Kind::Buy, 4..=6 => Kind::Sell, 7 => Kind::Dividend, 8 => Kind::Accumulation, _ => Kind::CapReturn };
         let q = Decimal::from(r.range(1, 100));
         let k = if k == Kind::Sell && pos < q { Kind::Buy } else { k };
@@ -95,7 +96,7 @@ fn cache_slice(cache: &FxCache, keys: &[(String, i32, u32)]) -> String {
 
 pub fn run(ctx: &mut Ctx) {
     let prop = "C08";
-    ctx.ev.rule = "part 1 (conversion): generated single-security ledgers with price and fees/tax in independently chosen currencies (GBP, USD, EUR, JPY, CHF, AUD, occasionally XTS which has no rates), months from 2015-01 to the last bundled month and beyond (a quarter of the ledgers start in the days around New Year or on the last/first day of a month), against the real bundled cache: each converted field must equal amount ÷ rate(own currency, own year, own month) (GBP unchanged); the report of the foreign ledger must equal the report of the pre-converted GBP ledger; a missing rate that is needed (non-zero amount) must fail naming the first such field's currency and the transaction's month; a zero amount converts to zero whatever its label; the Lean model must agree on every converted value and error. part 3 (CLI): ledgers mixing sterling and foreign amounts per line (incl. all-sterling prices with one foreign fee) through `cgt-tool report --format json` against the library with the bundled table. part 2 (loader): generated rate folders (real XML text, real file names, modification times) loaded with the real loader: overridden keys take the newest file's rate, all other keys keep the bundled rate, files whose period disagrees with their name, with month 13 names, or with a zero/negative rate are rejected; compared with the model's loadCache. Non-trivial = ledgers with two different non-GBP currencies on one line, and folders with ≥ 2 files; distinct by case text.".into();
+    ctx.ev.rule = "part 1 (conversion): generated single-security ledgers with price and fees/tax in independently chosen currencies (GBP, USD, EUR, JPY, CHF, AUD, occasionally XTS, which has no rates, or any other ISO code the currency type knows, with or without bundled rates), months from 2015-01 to the last bundled month and beyond (a quarter of the ledgers start in the days around New Year or on the last/first day of a month), against the real bundled cache: each converted field must equal amount ÷ rate(own currency, own year, own month) (GBP unchanged); the report of the foreign ledger must equal the report of the pre-converted GBP ledger; a missing rate that is needed (non-zero amount) must fail naming the first such field's currency and the transaction's month; a zero amount converts to zero whatever its label; the Lean model must agree on every converted value and error. part 3 (CLI): ledgers mixing sterling and foreign amounts per line (incl. all-sterling prices with one foreign fee) through `cgt-tool report --format json` against the library with the bundled table. part 2 (loader): generated rate folders (real XML text, real file names, modification times) loaded with the real loader: overridden keys take the newest file's rate, all other keys keep the bundled rate, files whose period disagrees with their name, with month 13 names, or with a zero/negative rate are rejected; compared with the model's loadCache. Non-trivial = ledgers with two different non-GBP currencies on one line, and folders with ≥ 2 files; distinct by case text.".into();
     let bundled = cgt_money::load_default_cache().expect("bundled cache");
     // last bundled month for USD
     let mut last = NaiveDate::from_ymd_opt(2015, 1, 1).expect("d");
